@@ -28,6 +28,9 @@ type Env struct {
 	depth  int
 	inOld  bool
 	bound  bool // inside a quantifier: terms may mention bound variables
+	lastUnfolds []unfoldT
+	noUnfold bool        // do not emit unfoldings of recursive spec functions
+	unfolds  *[]unfoldT  // collects unfolding templates for terms with bound variables
 	cst    *State // state supplying local cells (current even inside old()); nil = st
 }
 
@@ -619,6 +622,9 @@ func (e *Env) call(x *ECall) (TV, error) {
 			}
 			args = append(args, v)
 		}
+		if m.UF {
+			return e.ufCall(m, args)
+		}
 		if m.Rec {
 			return e.recCall(m, args)
 		}
@@ -670,7 +676,71 @@ func (e *Env) recCall(m *Macro, args []TV) (TV, error) {
 	if len(args) == 0 {
 		app = Term{fname, rsort}
 	}
-	return TV{app, nil}, nil
+	// one unfolding of the defining equation at these arguments ("fuel 1")
+	if !e.noUnfold && (!e.bound || e.unfolds != nil) {
+		key := "unfold:" + app.S
+		if e.bound || !vc.declared[key] {
+			vars := map[string]TV{}
+			for i, p := range m.Params {
+				vars[p] = args[i]
+			}
+			n := *e
+			n.vars = vars
+			n.fr = nil
+			n.noUnfold = true
+			n.depth = e.depth + 1
+			body, err := n.eval(m.Body)
+			if err != nil {
+				return TV{}, fmt.Errorf("in %s: %v", m.Name, err)
+			}
+			if body.T.Sort != rsort {
+				return TV{}, fmt.Errorf("%s: body has sort %s, declared %s", m.Name, body.T.Sort, rsort)
+			}
+			if e.bound {
+				*e.unfolds = append(*e.unfolds, unfoldT{app: app, body: body.T})
+			} else {
+				vc.declared[key] = true
+				vc.lines = append(vc.lines, "(assert "+eq(app, body.T).S+")")
+			}
+		}
+	}
+	var rtyp types.Type
+	if m.RType == "bool" {
+		rtyp = tBool
+	} else {
+		rtyp = tInt
+	}
+	return TV{app, rtyp}, nil
+}
+
+// unfoldT is the defining equation of a recursive spec function at a term that
+// mentions bound variables; it is instantiated together with the quantifier.
+type unfoldT struct {
+	app, body Term
+}
+
+// ufCall applies an uninterpreted specification function.
+func (e *Env) ufCall(m *Macro, args []TV) (TV, error) {
+	vc := e.vc
+	fname := quote("uf:" + m.Name)
+	rsort, rtyp := SInt, types.Type(tInt)
+	switch m.RType {
+	case "bool":
+		rsort, rtyp = SBool, tBool
+	case "string":
+		rsort, rtyp = SStr, types.Typ[types.String]
+	}
+	var asorts, astr []string
+	for _, a := range args {
+		asorts = append(asorts, a.T.Sort)
+		astr = append(astr, a.T.S)
+	}
+	vc.declare("uf:"+fname, fmt.Sprintf("(declare-fun %s (%s) %s)", fname, strings.Join(asorts, " "), rsort))
+	app := Term{"(" + fname + " " + strings.Join(astr, " ") + ")", rsort}
+	if len(args) == 0 {
+		app = Term{fname, rsort}
+	}
+	return TV{app, rtyp}, nil
 }
 
 func exprString(x Expr) string {
